@@ -14,6 +14,12 @@ CHECKS = {
  "C15": dict(cat="exploration", technique="deterministic simulation: scripted reader/writer (short transfers, EINTR, EOF, terminal errors) behind the io::Read/io::Write seam, reference-model oracle",
    text="Seeded scripts drive read_to_end/read_to_string/read_exact/write_all/write_fmt through a reader/writer whose every call is answered by the decision stream (k bytes, EOF/0, EINTR, terminal errno), with sizes and capacities around the 32-byte thresholds and UTF-8 cut at every boundary; results are compared with a trivial reference (concatenation). Sampling, not proof.",
    note="After an error the buffer must be old ++ prefix(delivered); uninitialised-memory exposure is not observable in a normal run.", ref="DESIGN.md §3 C15"),
+ "C03": dict(cat="exploration", technique="deterministic simulation: seeded allocation histories on a simulated address space (placement by decision) with mmap/mremap/munmap fault injection, shadow-map oracle",
+   text="Seeded histories of malloc/calloc/realloc/free over all size classes and alignments drive the real Dlmalloc over a simulated address space whose every mapping is placed by decision (above/below an existing mapping or isolated) and whose mmap/mremap/munmap can be refused at decided positions. Oracle: shadow map (alignment, inside granted memory, disjointness, byte patterns, calloc zero, realloc prefix), unmap-of-live-block detection at the seam, null only on refusal, heap usable after faults stop; debug build in half of the workers (allocator self-checks), PROT_NONE arena turns stray accesses into crashes. 1/8 of the cases run 2-3 simulated threads through Mutex<Dlmalloc>. Sampling, not proof.",
+   note="Blocks over 64 KiB are pattern-checked at head/tail/one byte per page; the provider models anonymous private mappings only.", ref="DESIGN.md §3 C03"),
+ "C04": dict(cat="exploration", technique="deterministic simulation: repeated allocate-then-free-everything rounds on the simulated address space with exact mapped-byte accounting, growth oracle",
+   text="A seeded workload round is repeated 200 (thorough: up to 5000) times on one Dlmalloc over the memory provider (placement by decision, sparse refusals); the provider's exact mapped-byte total is tracked per call. Violation only if window maxima keep strictly increasing, by at least 256 KiB, and the end footprint exceeds 3x peak live + 8 MiB: decides unbounded growth, not a tight bound. Single-threaded and 2-3 simulated threads through Mutex<Dlmalloc>.",
+   note="The private GlobalDlMalloc wrapper is not linked into the harness (its composition Mutex<Dlmalloc> is); a defect confined to that wrapper is out of reach of this check.", ref="DESIGN.md §3 C04"),
 }
 NA = {
  "C07": "pure function of the initial process image (argv/env/aux on the start-up stack): no schedule, clock, fault or second party to simulate",
